@@ -908,6 +908,55 @@ def r5_seed_object_reuse(chk, quick):
                          % (ep, form, v, v), rep)
 
 
+def r6_read_order(chk, quick):
+    """WHEN the caller looks at the screen must not matter: two reproductions (same class, parameters, seed) of which one reads / prints
+    the screen right after construction and between steps and the other does not touch `.scrn` before its first add_row (it uses the
+    value add_row returns) — bit-identical after every step.  (Every other clause of this check records the screen right after
+    construction, so an initial screen generated lazily on first access — after the first row's draws, seeded change C06-I — went unseen.)"""
+    from aotools.turbulence import infinitephasescreen as ips
+    rng = chk.rng
+    for it in range(6 if quick else 30):
+        vk = rng.random() < 0.6
+        nx = rng.choice([5, 8, 9, 12]) if vk else rng.choice([5, 9, 8])
+        par = dict(px=rng.choice([0.05, 0.1, 0.25]), r0=rng.choice([0.1, 0.16, 0.3]), L0=rng.choice([10., 25., 50.]))
+        seed = rng.choice([0, 1, rng.randint(2, 10 ** 6), 2 ** 40 + rng.randint(0, 99)])
+        steps = rng.randint(1, nx + 3)
+        first_read = rng.randint(1, steps)                # the silent twin looks at `.scrn` for the first time after this step
+
+        def make():
+            if vk:
+                return ips.PhaseScreenVonKarman(nx, par["px"], par["r0"], par["L0"], random_seed=seed, n_columns=2)
+            return ips.PhaseScreenKolmogorov(nx, par["px"], par["r0"], par["L0"], random_seed=seed, stencil_length_factor=4)
+        rep = {"class": "PhaseScreenVonKarman" if vk else "PhaseScreenKolmogorov", "nx": nx, "params": par, "seed": seed, "steps": steps,
+               "first_read_of_silent_twin_after_step": first_read}
+        chk.count("r6:read-order")
+        chk.oracle_cases += 1
+        chk.case(("r6-read-order", json.dumps(rep, sort_keys=True)))
+        try:
+            a = make()
+            seen = [numpy.array(a.scrn, copy=True)]
+            repr(a)
+            for k in range(steps):
+                a.add_row()
+                str(a)
+                seen.append(numpy.array(a.scrn, copy=True))
+            b = make()
+            silent = []
+            for k in range(steps):
+                r = b.add_row()
+                silent.append(numpy.array(r if (k + 1 < first_read and r is not None) else b.scrn, copy=True))
+        except Exception as ex:
+            chk.fail("raises:r6:read-order:%s" % type(ex).__name__, "%s raised %r in a create / add_row history" % (rep["class"], ex), rep)
+            continue
+        for k in range(steps):
+            if seen[k + 1].shape != silent[k].shape or seen[k + 1].tobytes() != silent[k].tobytes():
+                chk.fail("repro:r6:read-order:%s" % rep["class"], "%s(nx=%d, seed=%d): the twin whose screen was read right after construction and "
+                         "the twin that first looked at `.scrn` after step %d differ after step %d (max |difference| %.3g): reading the screen "
+                         "changed what the seed produces" % (rep["class"], nx, seed, first_read, k + 1,
+                                                             float(numpy.max(numpy.abs(seen[k + 1] - silent[k]))) if seen[k + 1].shape == silent[k].shape else float("nan")), rep)
+                break
+
+
 def r5_caller_mutation(chk, quick):
     """the caller changes a returned screen IN PLACE (scrn *= wavelength / 2 pi; scrn[:] = 0) and then asks for the same seed and
     parameters again (finite: the same call; infinite: a new instance): the new screen is the one of the first call"""
@@ -1298,6 +1347,7 @@ def run(chk):
     r5_seed_object_reuse(chk, quick)
     r5_caller_mutation(chk, quick)
     r5_forked_unseeded(chk, quick)
+    r6_read_order(chk, quick)
     # correspondence of the touch sets
     try:
         ans = common.run_driver(lines, "C06")
